@@ -2,6 +2,7 @@
 specification (soundness on enumerated/sampled members + well-formedness) on harness cases. -/
 import CweModel.Base.Proto
 import CweModel.C02.Model
+import CweModel.C02.RefSem
 open Lean CweModel.Proto
 
 namespace CweModel.Itv.Drv
@@ -115,6 +116,33 @@ def parseTriple (j : Json) : Except String Triple := do
     return { x := ← gi x, y := ← gi y, z := z }
   | _ => throw "bad triple"
 
+/-- a concrete pair `(x, z)` evaluated by the real `Bitvector::un_op / cast / subpiece` (`z = none`: `Err`) -/
+def parsePair (j : Json) : Except String (Int × Option Int) := do
+  match j with
+  | Json.arr #[Json.str x, z] =>
+    let gi (s : String) : Except String Int := match s.toInt? with
+      | some v => pure v
+      | none => throw s!"bad integer {s}"
+    let z ← match z with
+      | Json.str s => do pure (some (← gi s))
+      | _ => pure none
+    return (← gi x, z)
+  | _ => throw "bad pair"
+
+/-- the pairs from the real bit-vector code against the reference semantics `ref` (value for value,
+`Err` for unknown) and against the abstract result `r` of the implementation: the value the real code
+computes for a member must be a member -/
+def checkPairs (cc : List (Int × Option Int)) (ref : Int → Option Int) (a : IntervalDomain) (r : IntervalDomain) :
+    Option String :=
+  match cc.find? (fun t => ref t.1 != t.2) with
+  | some t => some s!"concrete-semantics x={t.1}"
+  | none =>
+    match cc.find? (fun t => match t.2 with
+        | some z => decide (a.Mem t.1) && !decide (r.Mem z)
+        | none => false) with
+    | some t => some s!"unsound x={t.1}"
+    | none => none
+
 /-- verdict assembly: `specErr` = description of a spec failure on the implementation output -/
 def verdict (cls : String) (impl model : String) (specErr : Option String) (tags : String) : String :=
   match specErr with
@@ -132,6 +160,11 @@ def concBin (op : BinOp) (wa wb : Nat) : Option (Int → Int → Int) :=
   | .piece => some (cpiece wa wb)
   | _ => none
 
+/-- BOOL_AND/OR/XOR are defined on 1-byte operands -/
+def isBoolOp : BinOp → Bool
+  | .boolXOr | .boolAnd | .boolOr => true
+  | _ => false
+
 def firstSome {α β} (xs : List α) (f : α → Option β) : Option β := xs.findSome? f
 
 def wtag (w : Nat) : String := s!"w{w}"
@@ -148,10 +181,9 @@ def handleE (line : String) : Except String String := do
     let op ← parseBinOp opS
     let b ← parseDom (← field j "b")
     let cc ← mapM' parseTriple ((arrF j "cc").toOption.getD [])
-    let conc : BinOp → Int → Int → Option Int := fun _ x y =>
-      match cc.find? (fun t => t.x == x && t.y == y) with
-      | some t => t.z
-      | none => none
+    -- the `Bitvector::bin_op` call inside `bin_op` is the P-Code reference semantics `CweModel.Ref.binOp`:
+    -- the model executed here is literally the function `binOp_sound_ref` (C02/RefTie.lean) speaks about
+    let conc := CweModel.C02.refConc a.w b.w
     let model := showDom (a.binOp conc op b)
     if impl.startsWith "panic" then return s!"diff class={opS}-panic model={model} impl={impl}"
     let r ← parseShown impl
@@ -170,9 +202,15 @@ def handleE (line : String) : Except String String := do
             | none => false) with
         | some t => some s!"unsound x={t.x} y={t.y}"
         | none =>
+          -- the reference semantics `Ref.binOp` must agree with the real bit-vector code on the triples
+          -- (value for value, `Err` for unknown), for every operation …
+          match (if isBoolOp op && a.w != 8 then none else cc.find? (fun t => conc op t.x t.y != t.z)) with
+          | some t => some s!"concrete-semantics x={t.x} y={t.y}"
+          | none =>
           match concBin op a.w b.w with
           | some f =>
-            -- the Lean reference semantics must agree with the real bit-vector code on the triples …
+            -- … so must the `Int` formulas of the operations with a transfer function of their own
+            -- (proved equal to the reference in C02/RefTie.lean) …
             match cc.find? (fun t => match t.z with | some z => f t.x t.y != z | none => false) with
             | some t => some s!"concrete-semantics x={t.x} y={t.y}"
             | none =>
@@ -199,10 +237,15 @@ def handleE (line : String) : Except String String := do
       | .intNegate => some (fun x => some (cnot a.w x))
       | .boolNegate => if a.w = 8 then some (fun x => if x = 0 then some 1 else if x = 1 then some 0 else none) else none
       | _ => none
+    let cc ← mapM' parsePair ((arrF j "cc").toOption.getD [])
     let specErr : Option String :=
       if r.interval.w != wexp then some "width"
       else if !wfDom r then some "illformed"
-      else match f with
+      -- (BOOL_NEGATE is defined on 1-byte operands: outside, only model = implementation is required)
+      else match (if op == .boolNegate && a.w != 8 then none else checkPairs cc (CweModel.C02.refUn a.w op) a r) with
+      | some e => some e
+      | none =>
+      match f with
         | some f => match xs.find? (fun x => match f x with | some z => !decide (r.Mem z) | none => false) with
           | some x => some s!"unsound x={x}"
           | none => none
@@ -223,10 +266,14 @@ def handleE (line : String) : Except String String := do
       | .popCount => some (cpopcount a.w w')
       | .lzCount => some (clzcount a.w w')
       | _ => none
+    let cc ← mapM' parsePair ((arrF j "cc").toOption.getD [])
     let specErr : Option String :=
       if r.interval.w != w' then some "width"
       else if !wfDom r then some "illformed"
-      else match f with
+      else match checkPairs cc (CweModel.C02.refCast a.w op (w' / 8)) a r with
+      | some e => some e
+      | none =>
+      match f with
         | some f => match xs.find? (fun x => !decide (r.Mem (f x))) with
           | some x => some s!"unsound x={x}"
           | none => none
@@ -240,10 +287,14 @@ def handleE (line : String) : Except String String := do
     let r ← parseShown impl
     if !wfDom a then return verdict "Subpiece" impl model none "modelonly"
     let xs := sampleMembers a.interval cap
+    let cc ← mapM' parsePair ((arrF j "cc").toOption.getD [])
     let specErr : Option String :=
       if r.interval.w != size then some "width"
       else if !wfDom r then some "illformed"
-      else match xs.find? (fun x => !decide (r.Mem (csubpiece a.w low size x))) with
+      else match checkPairs cc (CweModel.C02.refSubpiece a.w (low / 8) (size / 8)) a r with
+      | some e => some e
+      | none =>
+      match xs.find? (fun x => !decide (r.Mem (csubpiece a.w low size x))) with
         | some x => some s!"unsound x={x}"
         | none => none
     return verdict (if low = 0 then "Subpiece-lower" else if low + size = a.w then "Subpiece-higher" else "Subpiece-mid")
